@@ -1,6 +1,6 @@
 """C08 — interning is canonical within a revision, across queries and threads."""
 from checks_path import *  # noqa
-from store_common import run_store
+from store_common import replay_store, run_store, run_store_nat
 from seq_common import run_seq
 
 PROPERTY = 'C08'
@@ -15,11 +15,17 @@ ASSUMPTIONS = ['atomicity of the shard-locked section is the lock\'s contract (t
 def ties(ctx):
     n = 1500 if ctx.tier == 'quick' else 60000
     m = 1500 if ctx.tier == 'quick' else 100000
-    return [run_store(ctx, 'intern', n), run_seq(ctx, 'full', m, seed_offset=8)]
+    return [run_store(ctx, 'intern', n), run_store_nat(ctx, 6 if ctx.tier == 'quick' else 300), run_seq(ctx, 'full', m, seed_offset=8)]
 
 def search(ctx, reason):
     t = run_seq(ctx, 'full', 150000, seed_offset=91, tag='search-full')
     for f in t.failures:
-        if f.kind == 'oracle':
+        if f.kind == 'oracle' and f.key not in listed_keys():
             return f
     return None
+
+def replay(ctx, path):
+    if '/store-' in path or path.endswith('.store.ops'):
+        return replay_store(ctx, path)
+    from seq_common import replay_seq
+    return replay_seq(ctx, path)
